@@ -889,6 +889,34 @@ func template(name string, mode int, r *kit.Rand) (steps []Step, runMode int, pa
 	return
 }
 
+// panicWindow: phase ph (0 Run, 1 Shutdown, 2 Cleanup, 3 ErrorHandler) panics with a value whose formatter
+// parks, which holds its goroutine inside erc.Recover before the panic is recorded.  While it is held, a
+// late Wait, a Running and a Start call are issued: Wait must either stay blocked until the formatter is
+// released or return an aggregate that already has ErrRecoveredPanic — never nil.
+func panicWindow(id, ph, mode int, out [4]int) Case {
+	stop, rm := stopStep(mode)
+	out[ph] = oPanic
+	if ph == 3 && out[0] != oErr && out[0] != oPanic && out[0] != oAbsent && out[1] < oErr && out[2] < oErr {
+		out[0] = oErr // the handler is only called with a non-nil aggregate
+	}
+	if ph == 0 && mode == 0 {
+		rm = runGate
+	}
+	steps := []Step{goS("start", true), stop, op("fmtpark"),
+		goS("wait", false), {Op: "grace", T: 1 + stopCallers(mode)},
+		goS("running", true), goS("start", true),
+		op("fmtrelease"), aw(1 + stopCallers(mode)), op("quiesce"), goS("wait", true), goS("running", true)}
+	return Case{ID: id, Tmpl: fmt.Sprintf("panic-window-%d/%d", ph, mode), Out: out, RunMode: rm, BlockFmt: ph + 1, Steps: steps}
+}
+
+// stopCallers: number of callers the stop step spawns (Close is a caller)
+func stopCallers(mode int) int {
+	if mode == 1 {
+		return 1
+	}
+	return 0
+}
+
 var tmplNames = []string{"after", "before", "early-cancel", "checked-finished", "checked-running", "checked-first", "launched-second", "main-window", "multi", "multi-immediate", "unstarted"}
 
 // ---------------------------------------------------------------- main
@@ -993,6 +1021,24 @@ func main() {
 		}
 		execCase(run, mkCase(id, races[i%len(races)], r.Intn(3), out, r), false, true)
 		id++
+	}
+	// 2b. panic windows: every phase x termination mode, on several outcome combinations
+	nw := run.Pick(2, 12)
+	for k := 0; k < nw; k++ {
+		for ph := 0; ph < 4; ph++ {
+			for mode := 0; mode < 3; mode++ {
+				r := run.Rand.Fork()
+				out := [4]int{1 + r.Intn(3), r.Intn(4), r.Intn(4), r.Intn(4)}
+				if k == 0 {
+					out = [4]int{oOk, oOk, oOk, oOk}
+					if ph != 1 {
+						out[1] = oAbsent
+					}
+				}
+				execCase(run, panicWindow(id, ph, mode, out), false, true)
+				id++
+			}
+		}
 	}
 	// 3. thorough only: unhooked stress, 3 concurrent Starts on a service whose Run returns immediately
 	if run.Thorough() {
